@@ -1407,11 +1407,11 @@ def gen_concurrent_bases(rng, quick):
     bases.append(("aimed-at-the-other", [{"members": [["file", "ok.txt", ""], ["file", "../" + other + "/evil", ""]], "pre": []},
                                          {"members": [["file", "ok.txt", ""], ["sym", "l", "sub"], ["file", "l/y", ""]],
                                           "pre": [["dir", WD + "/sub", ""]]}]))
-    for _ in range(1 if quick else 6):
+    for _ in range(1 if quick else 4):
         a, b = benign(rng.randint(1, 4)), benign(rng.randint(1, 4))
         bases.append(("random-benign", [{"members": a, "pre": gen_pre(rng)}, {"members": retarget(b, WD2), "pre": gen_pre(rng)}]))
     if not quick:
-        for _ in range(4):
+        for _ in range(3):
             t, hostile, _p = gen_hostile(rng)
             bases.append(("benign+hostile:" + t, [{"members": benign(2), "pre": []}, {"members": retarget(hostile, WD2), "pre": []}]))
     return bases
@@ -1425,7 +1425,7 @@ def gen_concurrent_cases(rng, quick, sb):
         # grants a sequential run needs: measured on the code under test
         probe = conc_run(sb, base, [0] * 200)
         grants = [sum(1 for w in probe.get("grants", []) if w == i) for i in range(2)]
-        plans = conc_plans(rng, quick, grants, exhaustive=(not quick and bi < 3))
+        plans = conc_plans(rng, quick, grants, exhaustive=(not quick and bi < 2))
         if quick and bi >= 2:
             # the full two-preemption family for the first two pairs, a sample for the others
             plans = plans[:5] + rng.sample(plans[5:], 12)
@@ -1742,7 +1742,7 @@ def run(ctx):
                 "before+after, every TarFile._extract_member): pairs of archives (same member names, different names, "
                 "hostile next to benign, one aimed at the other's working directory, random benign with existing content) "
                 "x schedules (sequential both orders, alternating, ALL two-preemption schedules i grants/j grants up to a "
-                "bound, random; thorough: every interleaving of the first 5 grants of each stager for three pairs), process "
+                "bound, random; thorough: every interleaving of the first 5 grants of each stager for two pairs), process "
                 "cwd = a neutral directory inside the sandbox; "
                 "(f) a third of all single cases run with the process cwd inside the sandbox; a sample of the cases is run "
                 "again at the end in reverse order and must answer identically. non-trivial = the operation "
@@ -1783,7 +1783,7 @@ def run(ctx):
     ctx.shrinker = shrinker_factory(sb)
     try:
         cases = [dict(c) for c in CORPUS]
-        n_ex, n_dep, n_cl = (500, 380, 80) if quick else (5500, 4000, 400)
+        n_ex, n_dep, n_cl = (500, 380, 80) if quick else (4500, 3300, 300)
         cases += [gen_extract_case(rng) for _ in range(n_ex)]
         cases += [gen_deploy_case(rng) for _ in range(n_dep)]
         cases += [gen_copylink_case(rng) for _ in range(n_cl)]
@@ -1793,7 +1793,7 @@ def run(ctx):
         memo = []
         run_cases(ctx, sb, cases, memo=memo)
         run_cases(ctx, sb, gen_concurrent_cases(rng, quick, sb))
-        rerun_sample(ctx, sb, rng, memo, 60 if quick else 600)
+        rerun_sample(ctx, sb, rng, memo, 60 if quick else 300)
         ctx.extra["link_chain_family"] = {
             "generated_chain_archives": sum(v for k, v in ctx.tags.items() if k.startswith("class:chain:")),
             "members_placed_through_link_members": ctx.tags.get("family:member-placed-through-link-member", 0),
